@@ -85,14 +85,21 @@ def run_reflection(case):
   p = len(ks)
   r = lpcref.acorr_from_reflection(ks, F(r0))
   nt = p >= 2
-  for order in list(range(0, p + 1)) + [None, p + 1, p + 2]:
+  # ONE lag list serves every call (a zero-extending order first, the default order after it):
+  # the function must not change its argument
+  shared = qs(r)
+  snapshot = list(shared)
+  for order in list(range(0, p + 1)) + [p + 2, None, p + 1]:
     try:
       if order is None:
-        filt = levinson_durbin(qs(r))
+        filt = levinson_durbin(shared)
         o = p
       else:
-        filt = levinson_durbin(qs(r), order)
+        filt = levinson_durbin(shared, order)
         o = order
+      if len(shared) != len(snapshot) or any(a is not b for a, b in zip(shared, snapshot)):
+        return bad("levinson:mutates-argument", "levinson_durbin changed the lag list it was given",
+                   {"lags": snapshot, "order": order}, list(shared), nt)
     except ParCorError:
       try:
         lpcref.levinson(r, p if order is None else order)
